@@ -121,6 +121,7 @@ fn with_g<R>(f: impl FnOnce(&mut Globals) -> R) -> R {
 }
 
 pub fn reset_globals() {
+    reset_ready_streams();
     with_g(|g| *g = Globals::default());
 }
 pub fn set_default_spec(k: usize, spec: Arc<Spec>) {
@@ -662,8 +663,41 @@ impl VStream {
     }
 }
 
+/// items each live harness stream could hand out right now without waiting (sid -> count)
+static READY_NOW: Mutex<Option<HashMap<Uid, u32>>> = Mutex::new(None);
+
+fn set_ready_now(sid: Uid, left: Option<u32>) {
+    let mut g = READY_NOW.lock().unwrap_or_else(|e| e.into_inner());
+    let m = g.get_or_insert_with(HashMap::new);
+    match left {
+        Some(n) if n > 0 => {
+            m.insert(sid, n);
+        }
+        _ => {
+            m.remove(&sid);
+        }
+    }
+}
+
+/// called by the controlled executor at a quiescent point: nothing is runnable, yet these streams have items ready
+pub fn note_ready_streams() {
+    let g = READY_NOW.lock().unwrap_or_else(|e| e.into_inner());
+    if let Some(m) = g.as_ref() {
+        let mut v: Vec<(&Uid, &u32)> = m.iter().collect();
+        v.sort();
+        for (sid, left) in v {
+            log::log(K::Note(format!("ready_stream sid={sid} left={left}")));
+        }
+    }
+}
+
+pub fn reset_ready_streams() {
+    *READY_NOW.lock().unwrap_or_else(|e| e.into_inner()) = None;
+}
+
 impl Drop for VStream {
     fn drop(&mut self) {
+        set_ready_now(self.sid, None);
         log::log(K::StreamDrop { sid: self.sid });
     }
 }
@@ -691,6 +725,7 @@ impl futures::Stream for VStream {
         loop {
             if this.left > 0 {
                 this.left -= 1;
+                set_ready_now(this.sid, Some(this.left));
                 let uid = log::uid();
                 log::log(K::StreamYield { sid: this.sid, item: uid });
                 return Poll::Ready(Some(Item { uid }));
